@@ -3180,7 +3180,9 @@ def generate(pid: str, repo: str):
     ext = [sp for sp in srctie_specs.SPECS.get(pid, []) if sp.get('translator')]
     if ext:      # dispatch: specs translated by a module of their own (spec key `translator`, e.g. py2lean_c18)
         import importlib as _il
-        return _il.import_module(ext[0]['translator']).generate(pid, repo, ext)
+        _m = _il.import_module(ext[0]['translator'])
+        if hasattr(_m, 'generate'):          # whole-property generator; otherwise per-module `translate_module` below
+            return _m.generate(pid, repo, ext)
     # a generated file holds the functions of one module (spec `gen_file`: of one named group of a module, so that
     # e.g. the heap-mode classes of boltons.cacheutils do not share a file with ThresholdCounter)
     mods = {(spec['module'], spec.get('gen_file')) for spec in srctie_specs.SPECS.get(pid, [])}
@@ -3195,7 +3197,11 @@ def generate(pid: str, repo: str):
                 by_mod.setdefault((spec['module'], spec.get('gen_file')), []).append(spec)
     files, infos = {}, []
     for module_name, gen in sorted(by_mod, key=lambda x: (x[0], x[1] or '')):
-        text, inf = translate_module(module_name, by_mod[(module_name, gen)], repo)
+        tr_mod = by_mod[(module_name, gen)][0].get('translator')     # spec key `translator`: a translator module of its own
+        if tr_mod:
+            text, inf = importlib.import_module(tr_mod).translate_module(module_name, by_mod[(module_name, gen)], repo)
+        else:
+            text, inf = translate_module(module_name, by_mod[(module_name, gen)], repo)
         files['Src_%s.lean' % (gen or module_name.split('.')[-1])] = text
         infos.extend(inf)
     return files, infos
